@@ -1,6 +1,7 @@
 import SciVerif.Drive.Util
 import SciVerif.Model.C17
 import SciVerif.Lemmas.C17k
+import SciVerif.Lemmas.C17l
 open Lean SciVerif.Drive
 
 namespace SciVerif.C17.Drive
@@ -414,9 +415,20 @@ def runTie (tbl : UnitTable) (mj sj : Json) : Except String Json := do
         | .imp d so q => some (d, so, q)
         | _ => none)
       let frag := fragRunB tbl (absEnv benv) mainStmts
+      -- `invB` (C17_inv_decidable): the invariant the refinement theorems assume of the initial
+      -- environment, evaluated on the environment the main program starts from (parsed remote
+      -- sources, parsed base), and on the environment the model ends in
+      let invFinal : Json := match parseC tbl benv mainItems with
+        | .ok env => Json.bool (invB tbl env)
+        | .error _ => Json.null
+      let badNodes := (benv.nodes ++ benv.sources.flatMap (fun s => s.2)).filter (fun n => !goodB tbl n)
       pure (Json.mkObj [("imports", Json.arr ((sites.zip imps).map tieOne).toArray),
                         ("frag", Json.bool frag),
-                        ("nested", jstr (nestedCover tbl benv mainItems mainStmts))])
+                        ("nested", jstr (nestedCover tbl benv mainItems mainStmts)),
+                        ("inv", Json.bool (invB tbl benv)),
+                        ("inv_bad", jarr (fun (n : Node) => jS n.name) badNodes),
+                        ("inv_declared", Json.bool (badNodes.any (fun n => n.value.isNone))),
+                        ("inv_final", invFinal)])
 
 def handle (j : Json) : Except String Json := do
   let k ← (← field j "k").getStr?
